@@ -2,4 +2,11 @@ fn main() {
     for (name, value) in fqr_modelcheck::all() {
         println!("{name}\t{value}");
     }
+    std::panic::set_hook(Box::new(|_| {}));
+    for (name, f) in fqr_modelcheck::all_panicking() {
+        match std::panic::catch_unwind(f) {
+            Ok(v) => println!("p:{name}\t{v}"),
+            Err(_) => println!("p:{name}\tPANIC"),
+        }
+    }
 }
